@@ -889,10 +889,11 @@ func expect(p *idl.Program, a trimArgs) (map[string]*fileExpect, oracleInfo, err
 		svcs := mainF.DefsOf(idl.KService)
 		for _, m := range a.Methods {
 			if !strings.Contains(m, ".") {
-				if len(svcs) != 1 {
-					return nil, info, fmt.Errorf("unqualified -m with %d services", len(svcs))
+				if len(svcs) == 0 {
+					return nil, info, fmt.Errorf("unqualified -m without a service")
 				}
-				m = svcs[0].Name + "." + m
+				// README: "defaults to the only service (single-service IDL) or the last service (multi-service IDL)"
+				m = svcs[len(svcs)-1].Name + "." + m
 			}
 			re, err := regexp.Compile(m)
 			if err != nil {
@@ -1220,6 +1221,7 @@ func modelCfg(rt *rapid.T) idl.Cfg {
 	c.MaxDefs = 3
 	c.NastyLits = false         // C17 known finding dumper-placeholder: its literal texts are not generated here
 	c.EnumViaTypedefFar = false // C05 known finding (a binding that denotes nothing), not a trimming matter
+	c.FuncNamePool = true       // Get / GetAll, the same method name in several services: what -m has to tell apart
 	return c
 }
 
@@ -1318,10 +1320,14 @@ func genMethods(rt *rapid.T, p *idl.Program) ([]string, []string) {
 				ms = append(ms, "^"+v.svc.Name+`\.`+m+"$")
 				kinds = append(kinds, "exact_made_anchored")
 			}
-		case 1: // unqualified, single-service main file only
-			if len(vs) == 1 && unambiguous(v.svc.Name+"."+m) {
+		case 1: // unqualified: the only service, or the last one of several (README)
+			last := vs[len(vs)-1]
+			if v.svc == last.svc && unambiguous(v.svc.Name+"."+m) {
 				ms = append(ms, m)
 				kinds = append(kinds, "unqualified"+suffix)
+				if len(vs) > 1 {
+					kinds[len(kinds)-1] = "unqualified_last_of_several" + suffix
+				}
 			} else {
 				ms = append(ms, "^"+v.svc.Name+`\.`+m+"$")
 				kinds = append(kinds, "anchored_single"+suffix)
